@@ -545,9 +545,16 @@ SCAN_EMPTYDIR = dict(region='scan_emptydir', file='cmdline/scan.c', begin='stati
                      proto='static void region_scan_emptydir(struct snapraid_scan *scan, const char *sub)', prologue='\t/* the region text is the whole body block of scan_emptydir() */')
 
 
+SCAN_LINK = dict(region='scan_link', file='cmdline/scan.c', begin='static void scan_link(struct snapraid_scan* scan, int is_diff, const char* sub, const char* linkto, unsigned link_flag)',
+                 end=' * Insert the specified file in the parity.', max_lines=90, expect_loops=0,
+                 proto='static void region_scan_link(struct snapraid_scan *scan, int is_diff, const char *sub, const char *linkto, unsigned link_flag)', prologue='\t/* the region text is the whole body block of scan_link() */')
+
+
 def scanfile_obs():
     F = 'harness/h_scanfile.c'
-    return [Ob('scan.emptydir', F, 'h_scan_emptydir', inject=[SCAN_FILE, SCAN_EMPTYDIR], defs={'VERIF_EMPTYDIR': None}, unwind=6, small_path=True, timeout=600, mem=6, cost=3, replay=False,
+    return [Ob('scan.link', F, 'h_scan_link', inject=[SCAN_FILE, SCAN_EMPTYDIR, SCAN_LINK], defs={'VERIF_SCANLINK': None}, unwind=6, small_path=True, timeout=600, mem=6, cost=3, replay=False,
+               functions=['scan_link (cmdline/scan.c; whole body extracted mechanically, callees routed to stubs)'], note='recorded or new link, same / different target, symbolic / hard link then and now, sync and diff'),
+            Ob('scan.emptydir', F, 'h_scan_emptydir', inject=[SCAN_FILE, SCAN_EMPTYDIR, SCAN_LINK], defs={'VERIF_EMPTYDIR': None}, unwind=6, small_path=True, timeout=600, mem=6, cost=3, replay=False,
                functions=['scan_emptydir (cmdline/scan.c; whole body extracted mechanically, callees routed to stubs)'], note='recorded or new directory, every value of the seven change counters'),
             Ob('scan.scan_file', F, 'h_scan_file', inject=[SCAN_FILE], unwind=6, small_path=True, timeout=1800, mem=8, cost=15, replay=False,
                functions=['scan_file (cmdline/scan.c; whole body extracted mechanically, every callee routed to a recording stub)'],
@@ -611,7 +618,7 @@ def c14(tier, seed):
         Ob('parity.allocated_size', P, 'h_allocated_size', unwind=8, small_path=True, timeout=900, mem=6, cost=8, kind='bounded', bound='1..3 disks of at most 5 positions, every block state at every position',
            functions=['parity_allocated_size (cmdline/parity.c)', 'block_has_file (cmdline/elem.h)'], note='fs_size / fs_par2block_find by stub over a symbolic block table'),
     ]
-    return obs + main_obs() + scanfile_obs()[:2]
+    return obs + main_obs() + [o for o in scanfile_obs() if o.name in ('scan.emptydir', 'scan.scan_file')]
 
 
 OPEN_NOATIME = dict(region='open_noatime', file='cmdline/unix.c', begin='int open_noatime(const char* file, int flags)', end='int dirent_hidden(struct dirent* dd)', max_lines=16, expect_loops=0,
